@@ -24,6 +24,7 @@ type HarnessSpec struct {
 	MinAsserts int                        `json:"min_asserts"`
 	Native     bool                       `json:"native_replay"` // counterexamples are re-run natively (sequential harnesses)
 	Note       string                     `json:"note"`
+	NoSample   bool                       `json:"no_sample"` // do not use for the quick-tier differential sample (expensive native build)
 }
 
 type CheckSpec struct {
@@ -184,6 +185,7 @@ func RunCheck(verifDir, repoDir, prop, tier string, seed int64, only string, ver
 		rep  *Report
 	}
 	var jobs []*job
+	nativeSampled := 0
 	for _, hs := range spec.Harnesses {
 		if only != "" && !strings.Contains(hs.Func, only) {
 			continue
@@ -209,6 +211,12 @@ func RunCheck(verifDir, repoDir, prop, tier string, seed int64, only string, ver
 		opts := ExploreOpts{Workers: workers, MaxPaths: tc.MaxPaths, TimeLimit: time.Duration(tc.TimeLimit) * time.Second, Solver: tc.Solver, TimeoutMS: tc.TimeoutMS, FallbackMS: tc.FallbackMS, KeepScripts: 3}
 		if opts.Solver == "" {
 			opts.Solver = "z3"
+		}
+		if hs.Native && (tier == "thorough" || os.Getenv("VERIF_DIFF") != "") {
+			opts.SampleModels = 2
+		} else if hs.Native && !hs.NoSample && nativeSampled < 2 {
+			nativeSampled++
+			opts.SampleModels = 1
 		}
 		jobs = append(jobs, &job{hs: hs, cfg: tc.Config, opts: opts})
 	}
@@ -349,6 +357,21 @@ func RunCheck(verifDir, repoDir, prop, tier string, seed int64, only string, ver
 				mb, _ := json.Marshal(v.Model)
 				out("  model: %s", truncate(string(mb), 600))
 			}
+		}
+		// differential validation of the translator: a passing symbolic path, instantiated with a model
+		// of its path condition, must also pass when the same harness runs natively on the real build.
+		for _, ps := range rep.PassSamples {
+			rp := BuildReplay(prop, hs, &cfg, Violation{Kind: "none", Key: "(passing path)", Model: ps.Model})
+			rp.fill(ps.Trace, ps.nd)
+			path := WriteReplay(verifDir, rp)
+			nat := NativePass(verifDir, repoDir, rp, path)
+			if nat.Reproduced {
+				diffChecked++
+			} else {
+				worse(4)
+				out("INCONCLUSIVE %s: a path that passes symbolically does not pass natively (%s); replay=%s", hs.Func, truncate(nat.Detail, 500), path)
+			}
+			os.Remove(path)
 		}
 		results = append(results, r)
 		out("%-60s %-22s paths=%d dec=%d instr=%d queries=%d (sat %d unsat %d unk %d) asserts=%d solver=%.1fs wall=%.1fs",
